@@ -137,6 +137,13 @@ Definition with_outcome (now : Z) (s : hstate) (o : outcome) : hstate :=
        (o_final o && is_none (o_exn o))
        (o_final o && negb (is_none (o_exn o))).
 
+(* HandlerState.with_purpose = dataclasses.replace(self, purpose=purpose): a copy with every other field kept.
+   The purpose itself (which cause the record belongs to) is outside this model; what matters for the error policy
+   is that NOTHING ELSE changes when one cause supersedes another (resume -> update after a restart, update ->
+   delete for a handler id shared by both) while the handler sleeps off its delay. *)
+Definition with_purpose (s : hstate) : hstate :=
+  mkHS (s_active s) (s_started s) (s_stopped s) (s_delayed s) (s_retries s) (s_success s) (s_failure s).
+
 Definition as_active (s : hstate) : hstate :=
   mkHS true (s_started s) (s_stopped s) (s_delayed s) (s_retries s) (s_success s) (s_failure s).
 
